@@ -12,6 +12,8 @@ The comparison / min-max functions of fcppt::math::box touch their scalars only 
  CMP   ==, <, != of boxes read the same component set (pos, size)
 shrink, stretch_absolute and corner_points are decided in c13_arith.py (polynomial identities). Declined: center, distance, stretch_relative (division).
 """
+import re
+
 from engine import facts as F
 from engine import load
 from engine import orders as O
@@ -124,6 +126,15 @@ def main(rep, tier, only):
             except sx.Unsupported as e:
                 rep.broken("C13: %s outside the interpreted fragment: %s" % (key0, e))
                 continue
+            if not captured:
+                # the per-coordinate part is not handed to all_of / init_max as a closure. When the function still reads
+                # coordinates some other way (a fold expression over an index pack, a hand-written loop) that is a form this
+                # rule does not follow -- analysis-broken, not a verdict; a function that reads no coordinate at all is judged below
+                reads = [n_ for n_ in F.walk(fn.get("body"), into_lambdas=True) if n_.get("k") == "call" and re.search(r"math::vector::(at|object::(x|y|z|w|get_unsafe))$|::operator\[\]$", T.callee_qn(fn["_unit"], n_) or "")]
+                if reads:
+                    rep.broken("C13 OUT/IDX %s at %s: the per-coordinate computation is not a closure passed to %s; this form is not followed" % (
+                        key0, F.primary_site(fn), "fcppt::algorithm::all_of" if spec["kind"] == "all_of" else "fcppt::math::box::init_max"))
+                    continue
             # ---- OUT
             why = None
             if spec["kind"] == "all_of":
@@ -284,7 +295,16 @@ def main(rep, tier, only):
         u = fn["_unit"]
         short = F.fn_name(fn).split("::")[-1]
         if fn.get("kind") == "ctor":
-            inits = {i["field"]: T.show(T.norm(u, i["init"])) for i in fn.get("inits", []) if i.get("field")}
+            inits = {}
+            for i in fn.get("inits", []):
+                if not i.get("field"):
+                    continue
+                t_ = T.show(T.norm(u, i["init"]))
+                # a member initialised EARLIER (initialisation order) and read here stands for the value it was given
+                for f0, v0 in list(inits.items()):
+                    core = re.sub(r"^fcppt::math::(?:vector|dim)::object\{(.*)\}$", r"\1", v0)
+                    t_ = re.sub(r"(?<![\w.])(?:this\.)?%s\b" % re.escape(f0), core, t_)
+                inits[i["field"]] = t_
             names = [p_["name"] for p_ in fn.get("params", [])]
             ptys = [(u.ty(p_["t"]) or "") for p_ in fn.get("params", [])]
             kinds = ["dim" if "dim::object" in t_ else ("vec" if "vector::object" in t_ else "?") for t_ in ptys]
